@@ -84,7 +84,7 @@ where
 	}
 
 	// Update the fee on the slate so we account for this when building the tx.
-	slate.fee_fields = fee.try_into().unwrap();
+	slate.fee_fields = fee.try_into()?;
 	slate.add_transaction_elements(keychain, &ProofBuilder::new(keychain), elems)?;
 
 	// Create our own private context
